@@ -151,7 +151,12 @@ class World:
         else:
             res[self.metric] = v
         if self.spec.get("cost") is not None:
-            res[self.spec.get("cost_attr", "cost")] = self.spec["cost"][t][lvl - 1]
+            # cumulative cost table; a run reports the cost spent by *this* job
+            c = self.spec["cost"][t][lvl - 1]
+            r0 = self.resumed_from.get(t, 0) if self.run_idx[t] > 0 and not self.scratch else 0
+            if r0 > 0:
+                c = c - self.spec["cost"][t][r0 - 1]
+            res[self.spec.get("cost_attr", "cost")] = c
         res.update(self.spec.get("extra_result", {}))
         return res
 
@@ -312,7 +317,7 @@ def replay(build, hist):
 
 
 def explore(build, prop, cfg_label, max_depth=None, max_states=None, exc_policy="violation",
-            dedup=True, on_state=None, want_samples=2):
+            dedup=True, on_state=None, want_samples=2, ctx=""):
     """Breadth-first search. `build()` -> fresh World with oracles.
 
     Returns (Coverage, [Violation]).  Exceptions escaping a public scheduler call under a
@@ -326,6 +331,7 @@ def explore(build, prop, cfg_label, max_depth=None, max_states=None, exc_policy=
     frontier = deque([()])
     cov.add("states")
     depth_reached = 0
+    sampled = set()
     while frontier:
         hist = frontier.popleft()
         if max_depth is not None and len(hist) >= max_depth:
@@ -351,12 +357,13 @@ def explore(build, prop, cfg_label, max_depth=None, max_states=None, exc_policy=
             if obs[0] == "EXC":
                 cov.outcome("exception:" + obs[1])
                 if exc_policy == "violation":
-                    key = f"exc:{type(w2.s).__name__}:{obs[1]}@{obs[2]}"
+                    key = f"exc:{obs[1]}@{obs[2]}"
                     vs = vs + [(key, f"{obs[1]} escaped {obs[2]} after {len(h2)} protocol-legal events: {obs[3]}")]
             else:
                 cov.outcome(":".join(str(x) for x in (obs[:2] if obs[0] == "suggest" else (obs[0], obs[-1]))))
             if vs:
                 for key, what in vs:
+                    key = f"{ctx}|{key}" if ctx else key
                     if key not in vkeys:
                         vkeys.add(key)
                         viols.append(Violation(prop, key, what, {"engine": "schedx", "cfg": cfg_label,
@@ -365,10 +372,15 @@ def explore(build, prop, cfg_label, max_depth=None, max_states=None, exc_policy=
             if obs[0] == "suggest" and obs[1] == "over_T":
                 cov.extra["cut_over_T"] = cov.extra.get("cut_over_T", 0) + 1
                 continue
+            if len(h2) in (6, 12) and len(h2) not in sampled and len(cov.samples) < want_samples:
+                sampled.add(len(h2))
+                cov.sample({"cfg": cfg_label, "history": [list(e) for e in h2],
+                            "trace": [list(map(str, o)) for o in w2.trace]})
             if on_state is not None:
                 extra = on_state(w2, h2)
                 if extra:
                     for key, what in extra:
+                        key = f"{ctx}|{key}" if ctx else key
                         if key not in vkeys:
                             vkeys.add(key)
                             viols.append(Violation(prop, key, what, {"engine": "schedx", "cfg": cfg_label,
